@@ -135,9 +135,12 @@ def roundtrip(k, suffix: str, path: str):
         return f"err:{type(e).__name__}", None
     try:
         if path:
-            os.makedirs(path, exist_ok=True)
+            # `text_path` is whatever stands in front of the standard file names: a directory (with its separator) or
+            # a label such as `archive/run1_`
+            if os.path.dirname(path):
+                os.makedirs(os.path.dirname(path), exist_ok=True)
             for f in TABLE_FILES:
-                shutil.move(f + suffix, os.path.join(path, f + suffix))
+                shutil.move(f + suffix, path + f + suffix)
         k2 = K()
         k2.read_network(text_path=path, text_string=suffix)
         return "ok", k2
@@ -145,7 +148,7 @@ def roundtrip(k, suffix: str, path: str):
         return f"err:{type(e).__name__}", None
     finally:
         for f in TABLE_FILES:
-            for p in (f + suffix, os.path.join(path, f + suffix) if path else None):
+            for p in (f + suffix, path + f + suffix if path else None):
                 if p and os.path.exists(p):
                     os.remove(p)
 
@@ -571,7 +574,7 @@ def predicates(ctx: Ctx) -> None:
         spec = spec_network(rng, n, edges, rng.choice([1, 1, 2, 3, 5]), hist)
         # numpy's text I/O (de)compresses transparently on these suffixes, so they are legitimate names too
         suffix, path = rng.choice(["", ".p", "_b", ".p", "_b", ".gz", ".r2.bz2", ".xz", ".dataset1", "_coords2", ".min.data"]), \
-            rng.choice(["", "", "pd/"])
+            rng.choice(["", "", "pd/", "pd/", "run1_", "archive/old_"])
         if rng.random() < 0.3 and n >= 2:
             i = rng.randrange(n)
             spec["edits"] = [("addts", i, i), ("rmmin", i)] if rng.random() < 0.6 else [("rmmin", i)]
